@@ -16,7 +16,7 @@ import (
 const nameChars = "abcdefghijklmnopqrstuvwxyzABCDEFGHIJKLMNOPQRSTUVWXYZ0123456789_.-"
 const tagChars = nameChars + ":/"
 
-var namePool = []string{"a", "b", "web.requests", "x-1", "A_b", "statsd.x", "statsd.", "api.latency", "q", "Z9", "m.n.o", "db_conn-pool.size", "0", "-", "a.b", "a_b"}
+var namePool = []string{"a", "b", "web.requests", "x-1", "A_b", "statsd.x", "statsd.", "statsdaemon.restarts", "statsd_proxy.dropped", "statsd", "statsd-exporter", "api.latency", "q", "Z9", "m.n.o", "db_conn-pool.size", "0", "-", "a.b", "a_b"}
 var srcPool = []string{"", "", "10.0.0.1", "10.0.0.2", "i-0abc", "h1", "fe80::1"}
 var tagPool = []string{"env:prod", "env:dev", "az:us-east-1a", "k:v", "plain", "a:b:c", "path:/x/y", "host:h9", "le:5", "statsdSource:zz", "s:1.2.3.4",
 	"version:1.0", "n:42", "k:w", "unnamed:u", "role:web", "A:B", "flag", "region:eu-1", "svc.name:api", "-", "_", "0", "host", "host:"}
